@@ -643,7 +643,7 @@ def main():
     ap.add_argument('--jobs', type=int, default=int(os.environ.get('VF_JOBS', '8')))
     ap.add_argument('--replay', default=None, help='replay an nd file: harness.variant:path')
     a = ap.parse_args()
-    tier = 'thorough' if a.tier.startswith('t') else 'quick'
+    tier = 'thorough' if a.tier.startswith('t') else ('extra' if a.tier.startswith('e') else 'quick')
     seed = int(os.environ.get('VERIF_SEED', '1'))
     t0 = time.time()
     if not os.path.exists(LL2C):
